@@ -388,6 +388,9 @@ func applyRw(rw proto.Rewriter, prefix, in []byte, spare int) (obs string, out [
 				obs = "panic"
 			}
 		}()
+		if len(prefix) == 0 && spare == 0 {
+			outbuf = nil // the usual call: Rewrite(nil, in)
+		}
 		res, err := rw.Rewrite(outbuf, inArg)
 		if err != nil {
 			obs = "err " + rwErrClass(err)
@@ -395,6 +398,28 @@ func applyRw(rw proto.Rewriter, prefix, in []byte, spare int) (obs string, out [
 		}
 		out = res
 		obs = "ok " + hexs(res)
+		// a rewriter is reusable and its results are independent: the same call again gives the same bytes, and
+		// neither that call nor appending to the first result changes the other (no result aliases the template)
+		res2, err2 := rw.Rewrite(nil, inArg)
+		if len(prefix) == 0 {
+			if err2 != nil || !bytes.Equal(res2, res) {
+				obs += " SECOND-CALL-DIFFERS"
+			}
+		}
+		if err2 == nil && len(res2) > 0 {
+			want := append([]byte(nil), res...)
+			for i := range res2 {
+				res2[i] ^= 0xFF
+			}
+			_ = append(res2, 0xEE, 0xEE, 0xEE, 0xEE)
+			if !bytes.Equal(res, want) {
+				obs += " RESULTS-SHARE-MEMORY"
+			}
+			res3, err3 := rw.Rewrite(nil, inArg)
+			if len(prefix) == 0 && (err3 != nil || !bytes.Equal(res3, want)) {
+				obs += " TEMPLATE-MODIFIED-THROUGH-A-RESULT"
+			}
+		}
 	}()
 	if !bytes.Equal(inbuf, in) {
 		obs += " INPUT-MODIFIED"
@@ -645,6 +670,9 @@ func (g *c19tgen) structType(depth int) *pty {
 				base = base.elem
 			}
 			tg.repeated = rep
+			if base.k == kMap && rndBool() {
+				tg.repeated = true // protoc-gen-go declares map fields `rep` (repeated entries on the wire); still a map field
+			}
 			switch base.k {
 			case kFloat32:
 				tg.wire = 5
@@ -1776,7 +1804,89 @@ func mutate(b []byte) []byte {
 
 // ---------------------------------------------------------------------------------------------
 
+// declared Go shapes: untagged structs with unexported fields before, between and after the exported ones, at the
+// top level and nested (reflect.StructOf cannot build them): the field numbers of the type description handed to
+// ParseRewriteTemplate are those the codecs use, so a template that names a field replaces THAT field
+type rwUnexp struct {
+	hits int
+	A    int
+	skip bool
+	B    string
+	C    float64
+	tail int
+}
+type rwUnexpOuter struct {
+	x   string
+	N   rwUnexp
+	Ptr *rwUnexp
+	Z   int32
+}
+
+func rwDeclared() {
+	cases := []struct{ tpl, want string }{
+		{`{"A":42}`, "A"}, {`{"B":"tpl"}`, "B"}, {`{"C":1.5}`, "C"}, {`{"A":7,"C":2.5}`, "AC"}, {`{"N":{"B":"in"}}`, "NB"}, {`{"Ptr":{"C":9.25},"Z":5}`, "PCZ"},
+	}
+	for i, c := range cases {
+		if !mine() {
+			skip()
+			continue
+		}
+		args := fmt.Sprintf("%d %s", i, c.tpl)
+		impl := guarded(func() string {
+			in := rwUnexpOuter{N: rwUnexp{A: 1, B: "x", C: 0.5}, Ptr: &rwUnexp{A: 2, B: "y", C: 0.25}, Z: 3}
+			want := rwUnexpOuter{N: rwUnexp{A: 1, B: "x", C: 0.5}, Ptr: &rwUnexp{A: 2, B: "y", C: 0.25}, Z: 3}
+			var typ reflect.Type
+			var inB, wantB []byte
+			if strings.ContainsAny(c.want, "NPZ") {
+				typ = reflect.TypeOf(in)
+				switch c.want {
+				case "NB":
+					want.N.B = "in"
+				default:
+					want.Ptr.C, want.Z = 9.25, 5
+				}
+				inB, _ = proto.Marshal(&in)
+				wantB, _ = proto.Marshal(&want)
+			} else {
+				typ = reflect.TypeOf(in.N)
+				w := in.N
+				if strings.Contains(c.want, "A") {
+					w.A = 42
+					if c.want == "AC" {
+						w.A = 7
+					}
+				}
+				if c.want == "B" {
+					w.B = "tpl"
+				}
+				if strings.Contains(c.want, "C") {
+					w.C = 1.5
+					if c.want == "AC" {
+						w.C = 2.5
+					}
+				}
+				inB, _ = proto.Marshal(&in.N)
+				wantB, _ = proto.Marshal(&w)
+			}
+			rw, err := proto.ParseRewriteTemplate(proto.TypeOf(typ), []byte(c.tpl))
+			if err != nil {
+				return "err:template"
+			}
+			out, err := rw.Rewrite(nil, inB)
+			if err != nil {
+				return "err:rewrite"
+			}
+			if !bytes.Equal(out, wantB) {
+				return "got " + hexs(out) + " want " + hexs(wantB)
+			}
+			return "ok"
+		})
+		emit("rw.decl", args, impl, "ok")
+	}
+}
+
 func runC19() {
+	rwDeclared()
 	scale := 1
 	if *tier == "thorough" {
 		scale = 12
